@@ -88,25 +88,21 @@ Section RF.
     (is_rf_apply c = true -> dynrf cf = true -> mq s <> []) -> tot (exec sig cf c s) = tot s.
   Proof.
     unfold tot. intros Hq.
-    destruct c as [| | |ax| | | | |a|m|m| | |m| |l]; try (destruct s; reflexivity);
+    destruct c as [| | |ax| | | | |a|m|m| | |m| |l| |o]; try (destruct s; reflexivity);
       try (destruct ax; destruct s; reflexivity).
     - (* Append *)
-      assert (E : forall v, rf_of (file (set_file (K:=K) v s)) = rf_of v /\ past (set_file v s) = past s /\ mq (set_file v s) = mq s)
-        by (intros v; destruct s; auto).
+      assert (E : forall u v, rf_of (file (set_uaf u (set_file (K:=K) v s))) = rf_of v /\
+                              past (set_uaf u (set_file v s)) = past s /\ mq (set_uaf u (set_file v s)) = mq s)
+        by (intros u v; destruct s; auto).
       destruct a as [[| | |]| | | | |];
-        try (cbn [exec]; destruct (E (file s ++ recs cf (AGrid AtAll) s)) as (E1 & E2 & E3); rewrite E1, E2, E3, rf_of_app, recs_no_rf by discriminate; rewrite app_nil_r; reflexivity);
-        try (cbn [exec]; destruct (E (file s ++ recs cf (AGrid AtDefaults) s)) as (E1 & E2 & E3); rewrite E1, E2, E3, rf_of_app, recs_no_rf by discriminate; rewrite app_nil_r; reflexivity);
-        try (cbn [exec]; destruct (E (file s ++ recs cf (AGrid AtPS) s)) as (E1 & E2 & E3); rewrite E1, E2, E3, rf_of_app, recs_no_rf by discriminate; rewrite app_nil_r; reflexivity);
-        try (cbn [exec]; destruct (E (file s ++ recs cf (AGrid AtIfSave) s)) as (E1 & E2 & E3); rewrite E1, E2, E3, rf_of_app, recs_no_rf by discriminate; rewrite app_nil_r; reflexivity);
-        try (cbn [exec]; destruct (E (file s ++ recs cf ACsr s)) as (E1 & E2 & E3); rewrite E1, E2, E3, rf_of_app, recs_no_rf by discriminate; rewrite app_nil_r; reflexivity);
-        try (cbn [exec]; destruct (E (file s ++ recs cf AWake s)) as (E1 & E2 & E3); rewrite E1, E2, E3, rf_of_app, recs_no_rf by discriminate; rewrite app_nil_r; reflexivity);
-        try (cbn [exec]; destruct (E (file s ++ recs cf ATracks s)) as (E1 & E2 & E3); rewrite E1, E2, E3, rf_of_app, recs_no_rf by discriminate; rewrite app_nil_r; reflexivity);
-        try (cbn [exec]; destruct (E (file s ++ recs cf APadded s)) as (E1 & E2 & E3); rewrite E1, E2, E3, rf_of_app, recs_no_rf by discriminate; rewrite app_nil_r; reflexivity).
-      cbn [exec]. destruct s; cbn.
+        try (unfold exec; cbn [exec1];
+             match goal with |- context [set_uaf ?u (set_file ?v s)] => destruct (E u v) as (E1 & E2 & E3) end;
+             rewrite E1, E2, E3, rf_of_app, recs_no_rf by discriminate; rewrite app_nil_r; reflexivity).
+      unfold exec; cbn [exec1]. destruct s; cbn.
       rewrite rf_of_app. cbn. rewrite !app_nil_r, <- app_assoc. reflexivity.
     - (* Apply *)
       destruct m; try (destruct s; reflexivity).
-      cbn [exec]. destruct (dynrf cf) eqn:Hd; [|destruct s; reflexivity].
+      unfold exec; cbn [exec1]. destruct (dynrf cf) eqn:Hd; [|destruct s; reflexivity].
       specialize (Hq eq_refl eq_refl). destruct s; cbn in *. destruct mq as [|e q]; [congruence|].
       cbn. rewrite <- !app_assoc. reflexivity.
   Qed.
@@ -114,17 +110,17 @@ Section RF.
   Lemma mq_exec sig cf c (s : st) :
     mq (exec sig cf c s) = if is_rf_apply c && dynrf cf then tl (mq s) else mq s.
   Proof.
-    destruct c as [| | |ax| | | | |a|m|m| | |m| |l]; try (destruct s; reflexivity);
+    destruct c as [| | |ax| | | | |a|m|m| | |m| |l| |o]; try (destruct s; reflexivity);
       try (destruct ax; destruct s; reflexivity); try (destruct a; destruct s; reflexivity).
-    destruct m; try (destruct s; reflexivity). cbn. destruct (dynrf cf); destruct s; reflexivity.
+    destruct m; try (destruct s; reflexivity). unfold exec; cbn. destruct (dynrf cf); destruct s; reflexivity.
   Qed.
 
   Lemma rfo_exec sig cf c (s : st) :
     rfo (exec sig cf c s) = if is_rf_apply c && dynrf cf then k_rfCalc K (rfo s) (hd (k_md0 K) (mq s)) else rfo s.
   Proof.
-    destruct c as [| | |ax| | | | |a|m|m| | |m| |l]; try (destruct s; reflexivity);
+    destruct c as [| | |ax| | | | |a|m|m| | |m| |l| |o]; try (destruct s; reflexivity);
       try (destruct ax; destruct s; reflexivity); try (destruct a; destruct s; reflexivity).
-    destruct m; try (destruct s; reflexivity). cbn. destruct (dynrf cf); destruct s; reflexivity.
+    destruct m; try (destruct s; reflexivity). unfold exec; cbn. destruct (dynrf cf); destruct s; reflexivity.
   Qed.
 
   Lemma past_exec sig cf c (s : st) :
@@ -132,9 +128,9 @@ Section RF.
       if is_rf_flush c then []
       else if is_rf_apply c && dynrf cf then past s ++ [hd (k_md0 K) (mq s)] else past s.
   Proof.
-    destruct c as [| | |ax| | | | |a|m|m| | |m| |l]; try (destruct s; reflexivity);
+    destruct c as [| | |ax| | | | |a|m|m| | |m| |l| |o]; try (destruct s; reflexivity);
       try (destruct ax; destruct s; reflexivity); try (destruct a as [[| | |]| | | | |]; destruct s; reflexivity).
-    destruct m; try (destruct s; reflexivity). cbn. destruct (dynrf cf); destruct s; reflexivity.
+    destruct m; try (destruct s; reflexivity). unfold exec; cbn. destruct (dynrf cf); destruct s; reflexivity.
   Qed.
 
   (** ** blocks without an RF kick *)
